@@ -47,21 +47,41 @@ func (k Keeper) Logger(ctx sdk.Context) log.Logger {
 	return ctx.Logger().With("module", fmt.Sprintf("x/%s", types.ModuleName))
 }
 
+// atomically runs a bank operation on a cached context and writes it back only if it succeeded.
+// The distributor runs in BeginBlock, where a failed operation is logged and skipped instead of
+// aborting a transaction; the bank module updates balances coin by coin and can fail half-way
+// (e.g. second denomination locked in a vesting account), which must not leave a partial transfer.
+func atomically(ctx sdk.Context, operation func(ctx sdk.Context) error) error {
+	cacheCtx, write := ctx.CacheContext()
+	if err := operation(cacheCtx); err != nil {
+		return err
+	}
+	write()
+	return nil
+}
+
 func (k Keeper) SendCoinsFromModuleToModule(ctx sdk.Context, coins sdk.Coins, moduleFrom string, moduleTo string) error {
-	return k.bankKeeper.SendCoinsFromModuleToModule(ctx, moduleFrom, moduleTo, coins)
+	return atomically(ctx, func(ctx sdk.Context) error {
+		return k.bankKeeper.SendCoinsFromModuleToModule(ctx, moduleFrom, moduleTo, coins)
+	})
 }
 
 func (k Keeper) SendCoinsFromModuleAccount(ctx sdk.Context, coins sdk.Coins, moduleFrom string, account sdk.AccAddress) error {
-	return k.bankKeeper.SendCoinsFromModuleToAccount(ctx, moduleFrom, account, coins)
+	return atomically(ctx, func(ctx sdk.Context) error {
+		return k.bankKeeper.SendCoinsFromModuleToAccount(ctx, moduleFrom, account, coins)
+	})
 }
 
 func (k Keeper) SendCoinsToModuleAccount(ctx sdk.Context, coins sdk.Coins, account sdk.AccAddress, moduleTo string) error {
-	return k.bankKeeper.SendCoinsFromAccountToModule(ctx, account, moduleTo, coins)
+	return atomically(ctx, func(ctx sdk.Context) error {
+		return k.bankKeeper.SendCoinsFromAccountToModule(ctx, account, moduleTo, coins)
+	})
 }
 
 func (k Keeper) BurnCoinsForSpecifiedModuleAccount(ctx sdk.Context, coins sdk.Coins, moduleAccountName string) error {
-	return k.bankKeeper.BurnCoins(ctx, moduleAccountName, coins)
-
+	return atomically(ctx, func(ctx sdk.Context) error {
+		return k.bankKeeper.BurnCoins(ctx, moduleAccountName, coins)
+	})
 }
 
 func (k Keeper) GetAccountCoins(ctx sdk.Context, account sdk.AccAddress) sdk.Coins {
